@@ -332,7 +332,7 @@ FS_STUBS = ["anyhow blanket From<E> -> harness stub (consumes the error, returns
             "std::path::Path::metadata -> Ok(zeroed Metadata)", "std::fs::Metadata::len -> length of the in-memory file", "std::fs::File::open/create -> File::from_raw_fd(3|4)",
             "<File as Read>::read -> copies from the in-memory file image, whole request", "<File as Write>::write/flush -> appends to an in-memory output buffer",
             "<OwnedFd as Drop>::drop -> no-op", "std::backtrace::Backtrace::capture -> Backtrace::disabled()",
-            "std::alloc::alloc -> alloc_zeroed + fill 0xAA + record (ptr, size, align)", "core::str::from_utf8 -> env::from_utf8_stub"]
+            "std::alloc::alloc -> CBMC malloc + fill 0xAA + record (ptr, size, align) of over-aligned blocks", "core::str::from_utf8 -> env::from_utf8_stub"]
 C08_MEM = ["c08_load_mem_u32", "c08_load_mem_u32_trail5", "c08_load_mem_tup2", "c08_load_mem_zeros", "c08_load_mem_arru32x1", "c08_load_mem_u64_trail8", "c08_overaligned_refused"]
 C08_REST = ["c08_load_full_u32", "c08_load_full_tup2", "c08_store_u32", "c08_store_tup2"]
 PLAN["C08"] = dict(
@@ -346,10 +346,12 @@ PLAN["C08"] = dict(
     stubs=FS_STUBS, assumptions=["every stub of fsenv.rs"])
 C09_ALL = ["c09_release_u32", "c09_release_tup2", "c09_release_arr", "c09_fail_wrong_type", "c09_fail_wrong_type_zero", "c09_fail_truncated", "c09_fail_bad_magic", "c09_fail_bad_tag",
            "c09_escape_deref", "c09_escape_asref", "c09_scoped_use", "c09_eps_scope"]
+C09_BAL = ["c09_eps_balance_cut20", "c09_eps_balance_tag26", "c09_eps_balance_tag16"]
+_c09_bal = lambda: [H("c09::" + n, bound="Vec<Vec<Option<u8>>> = [[Some(a)],[Some(b),None]], payload symbolic; stream cut at byte 20 / invalid tag (every value >= 2) at byte 26 or 16", what="failed eps deserialization: allocator calls == releases (parts already built are released)", role="eps/" + n[4:]) for n in C09_BAL] + [twin("c09::c09_eps_balance_twin")]
 PLAN["C09"] = dict(
     quick=lambda seed: [dict(cfg="nommap", harnesses=[H("c09::" + n, bound="load_mem under fs stubs, no-mmap build; file contents symbolic", what="release exactly once / no leak on failure / no use after release through safe code", covers="none", role="load_mem/" + n[4:]) for n in C09_ALL]
-                             + [twin("c09::c09_twin_reach")], timeout=900)],
-    thorough=lambda seed: [dict(cfg="nommap", harnesses=[H("c09::" + n, bound="load_mem under fs stubs, no-mmap build", what="lifetime of the backing memory", covers="none", role="load_mem/" + n[4:]) for n in C09_ALL] + [twin("c09::c09_twin_reach")], timeout=2400)],
+                             + _c09_bal() + [twin("c09::c09_twin_reach")], timeout=900)],
+    thorough=lambda seed: [dict(cfg="nommap", harnesses=[H("c09::" + n, bound="load_mem under fs stubs, no-mmap build", what="lifetime of the backing memory", covers="none", role="load_mem/" + n[4:]) for n in C09_ALL] + _c09_bal() + [twin("c09::c09_twin_reach")], timeout=2400)],
     bounds={"loader": "load_mem only", "failure_causes": "wrong type (2 pairs), truncated file, corrupt magic, corrupt variant tag"},
     outside=["I/O errors while reading the file inside load_mem (harnesses c09_fail_read_io / c09_fail_read_error exist but are not tractable: after the failed read_exact CBMC walks infeasible continuations through anyhow/Backtrace drop glue, > 15 min, no verdict) - a double free or leak that only occurs on that path is NOT detected by this check",
              "the borrow-checker half (programs that must be REJECTED by rustc): a type-check verdict is not a solver query; only the accept-side programs are compiled here",
@@ -437,9 +439,9 @@ PLAN["C17"] = dict(
 
 C18_ALL = _fns("c18.rs", r"^\s+(c18_\w+) @")
 PLAN["C18"] = dict(
-    quick=lambda seed: [dict(harnesses=names("c18", ["c18_zeros_p1", "c18_u32_p1", "c18_deeps_some", "c18_vecu128_p0", "c18_zal32_p8", "c18_hold_zst", "c18_toplevel_u32"], bound="concrete shape, field values symbolic, start residue per instance", what="bytes equal plain serialization; rows pre-order/in-stream/tiling/zero padding/aligned; debug() and to_csv() run", covers="none")
+    quick=lambda seed: [dict(harnesses=names("c18", ["c18_zeros_p1", "c18_u32_p1", "c18_deeps_some", "c18_vecu128_p0", "c18_zal32_p8", "c18_hold_zst", "c18_esingle_p0", "c18_arr_u64x0_p1", "c18_toplevel_u32"], bound="concrete shape, field values symbolic, start residue per instance", what="bytes equal plain serialization; rows pre-order/in-stream/tiling/zero padding/aligned; debug() and to_csv() run", covers="none")
                              + [twin("c18::c18_twin_reach")], timeout=900, jobs=5)],
     thorough=lambda seed: [dict(harnesses=names("c18", C18_ALL + ["c18_toplevel_u32"], bound="concrete shape, field values symbolic", what="schema rows vs bytes", covers="none") + [twin("c18::c18_twin_reach")], timeout=2400, jobs=5)],
-    bounds={"shapes": "20 concrete shapes incl. 16- and 32-aligned blocks at gaps of 8/16/24/1 bytes, zero-sized fields, empty sequences, nested composites, header rows (top level u32)"},
+    bounds={"shapes": "23 concrete shapes incl. 16- and 32-aligned blocks at gaps of 8/16/24/1 bytes, zero-sized fields, zero-sized types that still write bytes (single-variant enum, [u64;0] behind a gap), empty sequences, nested composites, header rows (top level u32)"},
     outside=["value-dependent shapes explored symbolically (CBMC runs out of memory)", "the rendered text (alloc::fmt::format is stubbed)", "shapes not listed"],
     stubs=["alloc::fmt::format -> String::new()", "Sink"], assumptions=[])
